@@ -263,10 +263,11 @@ META = {
              'applied to the same object, that only the four primitives write the list and the inherited append/extend/+= '
              'route through insert, that the guard rejects non-frames and frames whose df/dt/fchans/fmin differ, that the '
              "primitives delegate to the list with the caller's index, the label-assignment protocol of the ordered cadence, "
-             'selection by label and the aggregate properties. Out-of-range index normalisation (list clamping) is not '
-             'decided. References follow the Python list model: list.insert positions are compared after clamping, the label '
-             'is that of the clamped position, a label is attached only after the store succeeded, a tuple index selects like '
-             'a list of positions.',
+             'selection by label and the aggregate properties. Ordered item assignment follows the list model for every index:'
+             ' a position outside [-len, len) raises before anything is stored (explicit range test, or store with the index '
+             'as given). References follow the Python list model: list.insert positions are compared after clamping, the label'
+             ' is that of the clamped position, a label is attached only after the store succeeded, a tuple index selects like'
+             ' a list of positions.',
     'note': 'Every path through a method is treated as feasible; the stdlib mixin routing is re-derived from the running '
             'interpreter\'s _collections_abc.py on every run.',
 }
